@@ -495,7 +495,13 @@ func driveFmt(args map[string]string) error {
 						cfg.unicode = true
 					}
 					src = genText(r, cfg)
-					if r.IntN(6) == 0 {
+					fixed := singleEscapes()
+					if i < len(fixed) {
+						src = fixed[i]
+					} else if r.IntN(8) == 0 {
+						src = sortTorture(r)
+					}
+					if r.IntN(6) == 0 && i >= len(fixed) {
 						src = mutate(r, src)
 					} else if p := respell(r, src); p != nil {
 						c.Pair = ints(p)
@@ -504,7 +510,13 @@ func driveFmt(args map[string]string) error {
 				} else {
 					c.Entry = []string{"format", "format", "compact", "indent", "canon", "append"}[r.IntN(6)]
 					c.G = randG(r, c.Entry)
-					if r.IntN(4) == 0 {
+					if fixed := singleEscapes(); i < len(fixed) {
+						src = fixed[i]
+					} else if r.IntN(12) == 0 {
+						src = reusedNames(r)
+					} else if r.IntN(12) == 0 {
+						src = sortTorture(r)
+					} else if r.IntN(4) == 0 {
 						src = mutate(r, src)
 					}
 				}
